@@ -289,9 +289,43 @@ class CallsMixin:
             return None
         return self.call_opaque(st, fr, ins, 'invoke ' + (iname or iface) + '.' + method, [recv] + args, rtypes)
 
+    def funcfield_contract(self, fr, fnv):
+        """contract declared for the struct field a called function value was read from"""
+        if fnv.get('k') != 'reg':
+            return None
+        d = self.def_instr(fr, fnv['name'])
+        if d is None or d['op'] != 'UnOp' or d.get('uop') != '*':
+            return None
+        a = d['x']
+        if a.get('k') != 'reg':
+            return None
+        fa = self.def_instr(fr, a['name'])
+        if fa is None or fa['op'] != 'FieldAddr':
+            return None
+        pt = fa['x']['type']
+        types = self.types
+        if types.kind(pt) != 'ptr':
+            return None
+        dd = types.get(types.elem(pt))
+        if dd.get('k') != 'named' or '.' not in dd['name']:
+            return None
+        pkg, tn = dd['name'].rsplit('.', 1)
+        key = '%s::%s.%s' % (pkg, tn, fa['fname'])
+        con = self.prog.cs.funcs.get(key)
+        if con is not None and con.opts.get('funcfield') is not None:
+            return key, con
+        return None
+
     def call_funcvalue(self, st, fr, b, i, ins, fv, args):
         sig = self.types.desc(fv.t)
         rtypes = [r['type'] for r in (sig.get('results') or [])]
+        ff = self.funcfield_contract(fr, ins['call']['fn'])
+        if ff is not None:
+            key, con = ff
+            pnames = [x for x in con.opts['funcfield'].split(',') if x]
+            vals = self.apply_contract(st, fr, ins, con, key, pnames, args, rtypes, [])
+            self.set_result(st, ins, vals)
+            return None
         if self.cx.contract.opts.get('callbacks') == 'pure':
             self.cx.assumed_used.add('function-typed field callbacks in %s are assumed not to write memory under contract' % self.cx.short)
             vals = []
